@@ -1080,6 +1080,37 @@ func ruleC17Dep(c *Checker) {
 		}
 	}
 	c.check(allowDep, R, name, "allowed set from the caller", p.Pos(sel.Pos()), "the set is the caller's allowedVersions parameter", "the caller's version constraint is ignored in the selection")
+	// ... and it is that set itself: a set derived from it by a library operation (dropping
+	// pre-releases, intersecting, subtracting) selects from a different set than the caller allowed
+	var xform string
+	var asIs func(v ssa.Value, seen map[ssa.Value]bool) bool
+	asIs = func(v ssa.Value, seen map[ssa.Value]bool) bool {
+		v = canon(v)
+		if seen[v] {
+			return true
+		}
+		seen[v] = true
+		switch x := v.(type) {
+		case *ssa.Parameter:
+			return true
+		case *ssa.Phi:
+			for _, e := range x.Edges {
+				if !asIs(e, seen) {
+					return false
+				}
+			}
+			return true
+		case *ssa.Call:
+			if o := calleeObj(x); o != nil {
+				xform = o.FullName()
+			}
+		}
+		return false
+	}
+	if allowDep {
+		okAs := asIs(sel.Call.Args[1], map[ssa.Value]bool{})
+		c.check(okAs, R, name, "allowed set used as given", p.Pos(sel.Pos()), "the set handed to NewestInSet is the parameter itself", "the selection is made in a set computed from the caller's allowed set ("+xform+"), not in that set: versions the caller allowed (pre-releases of an open range, …) are never chosen, and a build can fail although an offered version is allowed")
+	}
 	// key of resolvedRegistry uses the same selected version
 	keyOK := false
 	eachInstr(fn, func(in ssa.Instruction) {
